@@ -63,6 +63,9 @@ Definition pset_eqb (a b : pset) : bool :=
   strl_eqb (ps_arguments a) (ps_arguments b) && strl_eqb (ps_argvalue a) (ps_argvalue b)
   && dict_eqb (ps_mapping a) (ps_mapping b).
 
+Definition set_incl (a b : list string) : bool := forallb (fun x => existsb (String.eqb x) b) a.
+Definition set_eqb (a b : list string) : bool := set_incl a b && set_incl b a.
+
 Record adfspec := mkadf { a_ps : pset; a_name : string; a_ctx : list (string * op); a_tree : list node }.
 Definition def_of (a : adfspec) : adfdef Z := mkdef (a_ps a) (a_name a) (ctx_of (a_ctx a)) (a_tree a).
 
@@ -72,7 +75,8 @@ Inductive case :=
 | CRead (subs : list (nat * nat)) (ps : pset) (s : string) (obs : option (list node))
 | CEval (ps : pset) (ctx : list (string * op)) (t : list node) (runs : list (list Z * option Z))
 | CAdf (defs : list adfspec) (runs : list (list Z * option Z))
-| CRename (ps : pset) (kargs : list (string * string)) (obs : option pset).
+| CRename (ps : pset) (kargs : list (string * string)) (obs : option pset)
+| CBuild (prefix : string) (tys : list nat) (ops : list bop) (obs : option (pset * list string)).
 
 Definition check (c : case) : bool :=
   match c with
@@ -96,4 +100,7 @@ Definition check (c : case) : bool :=
       forallb (fun r =>
         oz_eqb (run_compiled cvalZ k (fst r)) (snd r) && oz_eqb (adf_sem cvalZ ds (fst r)) (snd r)) runs
   | CRename ps kargs obs => option_eqb pset_eqb (rename kargs ps) obs
+  | CBuild prefix tys ops obs =>
+      option_eqb (fun a b => pset_eqb (fst a) (fst b) && set_eqb (snd a) (snd b))
+                 (pset_build ops (pset_init prefix tys, [])) obs
   end.
